@@ -192,7 +192,38 @@ func TestC19_Bodies(t *testing.T) {
 					g.preferForEach = append(g.preferForEach, name)
 				}
 			}
-			tree := gen.BodyFromSpec(t, ms, gen.BodyFromSpecOpts{Perturb: 30, Labels: []string{"a", "b", "x y", "l"}, Expr: g.expr, Dyn: g.dyn})
+			// marked strings that can serve as computed object keys
+			var secretStrings []string
+			for _, name := range sc.Names {
+				v := sc.Vals[name]
+				if u, _ := v.Unmark(); v.IsMarked() && u.Type() == cty.String && u.IsKnown() && !u.IsNull() {
+					secretStrings = append(secretStrings, name)
+				}
+			}
+			attrExpr := func(ty cty.Type) ast.Node {
+				if len(secretStrings) == 0 || rapid.IntRange(0, 4).Draw(t, "secret_keyed") != 0 {
+					return g.expr(ty)
+				}
+				// a container in which a secret is a computed key, at some depth, next to values of
+				// assorted types: conversions to the attribute's type then fail at or below that key
+				c.Class("secret_keyed_container")
+				lit := func() ast.Node {
+					return literalOfType(t, rapid.SampledFrom([]cty.Type{cty.Number, cty.Bool, cty.String, cty.List(cty.String)}).Draw(t, "valty"))
+				}
+				var n ast.Node = ast.Object{Items: []ast.ObjItem{
+					{Kind: ast.KeyParens, Key: ast.Var{Name: rapid.SampledFrom(secretStrings).Draw(t, "keyvar")}, Val: lit()},
+					{Kind: ast.KeyIdent, Name: "other", Val: lit()},
+				}}
+				for d := rapid.IntRange(0, 2).Draw(t, "keyed_depth"); d > 0; d-- {
+					if rapid.Bool().Draw(t, "in_tuple") {
+						n = ast.Tuple{Elems: []ast.Node{n, lit()}}
+					} else {
+						n = ast.Object{Items: []ast.ObjItem{{Kind: ast.KeyIdent, Name: "inner", Val: n}, {Kind: ast.KeyIdent, Name: "z", Val: lit()}}}
+					}
+				}
+				return n
+			}
+			tree := gen.BodyFromSpec(t, ms, gen.BodyFromSpecOpts{Perturb: 30, Labels: []string{"a", "b", "x y", "l"}, Expr: attrExpr, Dyn: g.dyn})
 			dump := ast.DumpBody(tree)
 			c.Set("body", dump)
 			c.Set("scope", scopeDump(sc))
